@@ -157,20 +157,20 @@ class Run(C1.Run):
         covs = [self.cov(f) for f in self.files]
         t = self.resolve_t(o["q"], covs)
         filters = o["filters"] if not w["single"] else None
+        # filters = what the caller means (the model's view); filters_arg = the
+        # dict object handed to typhon.  A caller may pass the same object again
+        # (one filter definition used in a loop): the answer must then be the
+        # one for the values the caller put in - judged by the answer only.
+        import copy as _copy
+        filters_arg = None
         if filters and o.get("reuse_filters") and getattr(self, "last_filters", None) \
                 is not None:
-            import copy as _copy
-            filters = self.last_filters           # same object as in the previous call
-            if filters != self.last_filters_value:
-                self.V.append(_viol(
-                    "C16/filters-argument-modified",
-                    f"the filters dict passed by the caller was changed from "
-                    f"{self.last_filters_value} to {filters}"))
-                filters = _copy.deepcopy(self.last_filters_value)
+            filters_arg = self.last_filters       # same object as in the previous call
+            filters = _copy.deepcopy(self.last_filters_value)
             self.probe("same_filters_object_reused")
-        if filters:
-            import copy as _copy
-            self.last_filters = filters
+        elif filters:
+            filters_arg = _copy.deepcopy(filters)
+            self.last_filters = filters_arg
             self.last_filters_value = _copy.deepcopy(filters)
         arg = t.strftime("%Y-%m-%d %H:%M:%S.%f") if o["as_str"] else t
         # ---- expected ------------------------------------------------------------
@@ -215,10 +215,24 @@ class Run(C1.Run):
             self.probe("exact_name_shortcut_possible")
         # ---- the call ------------------------------------------------------------
         self.queries += 1
+        if C1.invalid_filter(filters):
+            self.probe("invalid_filter_repeated")
+            for rep in (1, 2):
+                try:
+                    got = self.fs.find_closest(arg, filters=filters_arg)
+                except Exception:  # noqa: the expected outcome
+                    continue
+                if got is not None:
+                    self.V.append(_viol(
+                        "C16/answer-for-invalid-filter",
+                        f"call {rep} of find_closest({t}, filters={filters}) returned "
+                        f"{F.fi_key(got)} although the filter is no regular expression"))
+                    return
+            return
         try:
             if kind == "getitem":
                 self.probe("getitem")
-                key = (arg, filters) if filters else arg
+                key = (arg, filters_arg) if filters else arg
                 got = self.fs[key]
                 if got is not None:
                     if got[0] != "content-of":
@@ -226,7 +240,7 @@ class Run(C1.Run):
                         return
                     got = got[1]
             else:
-                got = self.fs.find_closest(arg, filters=filters)
+                got = self.fs.find_closest(arg, filters=filters_arg)
                 if got is not None:
                     got = F.fi_key(got)
             raised = None
@@ -315,6 +329,8 @@ def run_one(tape, only=None):
     res["edigest"] = digest_of(run.answers)
     res["faults"] = {"listing_order_permuted": getattr(run.be.fs, "permuted", 0)} \
         if getattr(run.be.fs, "permuted", 0) else {}
+    if run.probes.get("invalid_filter_repeated"):
+        res["faults"]["call_failed_on_invalid_filter"] = run.probes["invalid_filter_repeated"]
     res["kinds"] = [f"backend={w['backend']}"]
     res["counters"] = {"queries": run.queries, "state_changes": run.changes}
     res["sample"] = {
